@@ -4,7 +4,8 @@ open Qx.Driver Qx.C15
 
 /-
 Op lines (space separated):
-  reset ctl=<0|1> comp=<n>
+  reset ctl=<0|1> comp=<n> stun=<number of STUN servers configured before bind>
+  close | rpass2      (close(); setRemotePassword with a NEW password)
   creds | ruser | rpass
   rtx <tx>            (the retransmission timer of that transaction fires once)
   addr <addr> <prio>
@@ -13,9 +14,11 @@ Op lines (space separated):
   timeout <tx>
   send <hex|->
   dg <src> app <hex|->
-  dg <src> <req|ind|rsp|err> <b|o> <txid> <layout> <uc 0|1> <role n|g|d> <prio> <user>
+  dg <src> <req|ind|rsp|err> <b|o> <txid> <layout> <uc 0|1> <role n|g|d> <prio> <user> [m<addr>]
+     txid 500+k = the k-th STUN-server discovery transaction; m<addr> = XOR-MAPPED-ADDRESS of a response (address id)
      <layout> = "-" (no integrity-relevant attribute) or tokens joined by "+", in wire order:
         loc rem bad trunc   a MESSAGE-INTEGRITY attribute (valid under the local / remote password, wrong key, length != 20)
+        old                 … valid under the remote password that `rpass2` has replaced
         fp fpbad            a FINGERPRINT attribute with a right / wrong CRC
         u                   some other attribute (unknown comprehension-optional)
         sw                  an attribute whose length field runs past the end of the datagram (it swallows whatever follows)
@@ -38,7 +41,7 @@ def parseMethod : String → Option Method
 def parseAttr : String → Option Attr
   | "loc" => some (.mi .validLocal) | "rem" => some (.mi .validRemote) | "bad" => some (.mi .wrongKey)
   | "trunc" => some (.mi .truncated) | "fp" => some (.fingerprint true) | "fpbad" => some (.fingerprint false)
-  | "u" => some .other | "sw" => some .overrun | "uc" => some .useCandidate
+  | "old" => some (.mi .validOldRemote) | "u" => some .other | "sw" => some .overrun | "uc" => some .useCandidate
   | t => if t.startsWith "pr" then (t.drop 2).toString.toNat?.map Attr.priority else none
 
 /-- the attribute list in wire order -/
@@ -58,7 +61,7 @@ def joinOr (l : List String) : String := if l.isEmpty then "-" else ",".intercal
 
 def obs (s : St) (outs : List Out) : String :=
   let acc := if outs.any (· == .accepted) then "1" else "0"
-  let w := joinOr (outs.filterMap fun | .warnBadMi => some "mi" | .warnNoMi => some "nomi" | .warnBadFp => some "fp" | .warnTruncAttr => some "ta" | .roleConflict => some "rc" | _ => none)
+  let w := joinOr (outs.filterMap fun | .warnBadMi => some "mi" | .warnNoMi => some "nomi" | .warnBadFp => some "fp" | .warnTruncAttr => some "ta" | .warnNoReflexive => some "noref" | .roleConflict => some "rc" | _ => none)
   let r := joinOr (outs.filterMap fun | .bindingResponse to t => some s!"{to}:{t}" | _ => none)
   let c := joinOr (outs.filterMap fun | .checkSent to t uc => some s!"{to}:{t}:{if uc then 1 else 0}" | _ => none)
   let p := joinOr (outs.filterMap fun | .pairState a st => some s!"{a}:{stateName st}" | _ => none)
@@ -66,7 +69,9 @@ def obs (s : St) (outs : List Out) : String :=
   let k := (outs.filter (· == .connectedSig)).length
   let d := joinOr (outs.filterMap fun | .appData b => some (showHex b) | _ => none)
   let t := joinOr (outs.filterMap fun | .appSent to b => some s!"{to}:{showHex b}" | .appNoRoute => some "noroute" | _ => none)
-  s!"a={acc} w={w} r={r} c={c} p={p} s={sel} k={k} C={if s.connected then 1 else 0} d={d} t={t}"
+  let l := joinOr (outs.filterMap fun | .localCandidate a => some s!"{a}" | _ => none)
+  let g := if outs.any (· == .gatheringComplete) then 1 else 0
+  s!"a={acc} w={w} r={r} c={c} p={p} s={sel} k={k} C={if s.connected then 1 else 0} d={d} t={t} l={l} g={g}"
 
 def doStep (s : St) (op : Op) : St × String :=
   let r := step s op
@@ -74,10 +79,12 @@ def doStep (s : St) (op : Op) : St × String :=
 
 def stepLine (s : St) (line : String) : St × String :=
   match words line with
-  | ["reset", c, k] =>
-    match kv c "ctl", kv k "comp" with
-    | some c, some k => (init (c != 0) k, "ok")
-    | _, _ => (s, "bad-op")
+  | ["reset", c, k, n] =>
+    match kv c "ctl", kv k "comp", kv n "stun" with
+    | some c, some k, some n => (init (c != 0) k n, "ok")
+    | _, _, _ => (s, "bad-op")
+  | ["close"] => doStep s .close
+  | ["rpass2"] => doStep s .setRemotePassword
   | ["creds"] => doStep s .setRemoteCreds
   | ["ruser"] => doStep s .setRemoteUser
   | ["rpass"] => doStep s .setRemotePassword
@@ -103,13 +110,17 @@ def stepLine (s : St) (line : String) : St × String :=
     match src.toNat?, parseHex h with
     | some src, some b => doStep s (.dgram { src := src, kind := .nonStun b })
     | _, _ => (s, "bad-op")
-  | ["dg", src, cls, meth, tx, mi, uc, role, prio, user] =>
-    match src.toNat?, parseCls cls, parseMethod meth, tx.toNat?, parseLayout mi, parseBool uc, parseRole role, prio.toNat?, user.toNat? with
-    | some src, some cls, some meth, some tx, some mi, some uc, some role, some prio, some user =>
+  | "dg" :: src :: cls :: meth :: tx :: mi :: uc :: role :: prio :: user :: rest =>
+    let mapped : Option (Option Nat) := match rest with
+      | [] => some none
+      | [t] => if t.startsWith "m" then (t.drop 1).toString.toNat?.map some else none
+      | _ => none
+    match src.toNat?, parseCls cls, parseMethod meth, tx.toNat?, parseLayout mi, parseBool uc, parseRole role, prio.toNat?, user.toNat?, mapped with
+    | some src, some cls, some meth, some tx, some mi, some uc, some role, some prio, some user, some mapped =>
       let m : Stun := { cls := cls, method := meth, txid := tx, attrs := mi, useCandidate := uc, roleAttr := role,
-                        priority := prio, username := user }
+                        priority := prio, username := user, mapped := mapped }
       doStep s (.dgram { src := src, kind := .stun m })
-    | _, _, _, _, _, _, _, _, _ => (s, "bad-op")
+    | _, _, _, _, _, _, _, _, _, _ => (s, "bad-op")
   | _ => (s, "bad-op")
 
 def main : IO Unit := run (init false) stepLine
